@@ -1,6 +1,6 @@
 import CallbagModel.Ops.Pipeline
 import CallbagModel.Script
-import CallbagModel.Closed.Prog2Def
+import CallbagModel.Closed.Prog3Def
 /-!
 # Pipelines (C06): parse the textual description shared with harness/src/pipe.rs, evaluate the model (`sem`, `listSem`), compare
 -/
@@ -90,17 +90,32 @@ def toStg : Sx → Option (Closed.Stg × Sx)
   | .list [.atom "skip", n, p] => (sxNat n).map fun n => (.skip n, p)
   | _ => none
 
-/-- programs of sources, unary stages, BINARY `concat!` and `flatmap rep` as syntax (`Closed/Prog2Def.lean`) -/
-partial def toProg2 (sx : Sx) : Option Closed.Prog2 :=
+/-- programs of sources, unary stages, `concat!` (binary: `concat2`; three or more members: `concatN`) and `flatmap rep` as syntax
+(`Closed/Prog3Def.lean`) -/
+partial def toProg3 (sx : Sx) : Option Closed.Prog3 :=
   match sx with
   | .list [.atom "src", n] => (sxNat n).map fun n => .src (rangeFrom 1 n)
   | .list [.atom "src", n, a] => match sxNat n, sxInt a with | some n, some a => some (.src (rangeFrom a n)) | _, _ => none
   | .list [.atom "inf", a] => (sxInt a).map fun a => .src (rangeFrom a infLen)
-  | .list [.atom "concat", p, q] => match toProg2 p, toProg2 q with | some p, some q => some (.concat p q) | _, _ => none
-  | .list [.atom "flatmap", .atom "rep", k, p] => match sxNat k, toProg2 p with | some k, some p => some (.flatRep k p) | _, _ => none
+  | .list [.atom "concat", p, q] => match toProg3 p, toProg3 q with | some p, some q => some (.concat2 p q) | _, _ => none
+  | .list (.atom "concat" :: ms) => (ms.mapM toProg3).map fun ps => .concatN ps
+  | .list [.atom "flatmap", .atom "rep", k, p] => match sxNat k, toProg3 p with | some k, some p => some (.flatRep k p) | _, _ => none
   | _ => match toStg sx with
-    | some (st, p) => (toProg2 p).map fun p => .stage st p
+    | some (st, p) => (toProg3 p).map fun p => .stage st p
     | none => none
+
+/-- Boolean mirror of `Closed.Prog3.ok` (the side condition of `prog3_correct`): every `take n` has `n ≥ 1`, `flatmap` over a linear program,
+no empty `concat!` — used only to COUNT how many programs of the stream are in the theorem's domain -/
+partial def linB : Closed.Prog3 → Bool
+  | .src _ => true
+  | .stage _ p => linB p
+  | _ => false
+partial def okB : Closed.Prog3 → Bool
+  | .src _ => true
+  | .stage s p => (match s with | .take n => n > 0 | _ => true) && okB p
+  | .concat2 p q => okB p && okB q
+  | .concatN ps => !ps.isEmpty && ps.all okB
+  | .flatRep _ p => linB p && okB p
 
 /-- `flatten(map(|a| take(k)(from_iter(1 .. a % 4)))(A))`: the `tri` family of the stream (inner sources are two-machine pipelines) -/
 def flatTriM (k : Nat) (A : Closed.AnyM) : Closed.AnyM :=
@@ -109,13 +124,12 @@ def flatTriM (k : Nat) (A : Closed.AnyM) : Closed.AnyM :=
     M := flatPlug A.M inner.M (fun a => ({ (Closed.srcM []).M.init with it := rangeFrom 1 (a % 4).toNat }, (Closed.takeM k).M.init)),
     nexts := fun s => A.nexts s.outer + (s.inners.map (fun p => inner.nexts p.2)).sum }
 
-/-- … as ONE machine — EVERY program of the stream.  Sources, unary stages, binary `concat!`, `flatmap rep`: `Closed.Prog2.toM`, the term
-`Closed.prog2_correct` (Closed/Prog2.lean) is about (its side condition `Prog2.ok` — `take n` with `n ≥ 1`, `flatmap` over a linear
-program — is not checked here: the comparison runs on every program); for programs without `flatmap` it is the term `Closed.Prog.toM` of
-`Closed.prog_correct`, for linear ones `Closed.chainM xs ss` of `Closed.linear_correct`.  n-ary `concat!` (n ≥ 3): every member plugged
-into the n-ary concat machine (`Closed.concatM`); `flatmap tri`: `flatTriM`; no theorem for these two, the comparison only. -/
+/-- … as ONE machine — EVERY program of the stream.  Sources, unary stages, `concat!` of any arity, `flatmap rep`: `Closed.Prog3.toM`, the
+term `Closed.prog3_correct` / `prog3_completes` (Closed/Prog3.lean) are about (their side condition `Prog3.ok` — `take n` with `n ≥ 1`,
+`flatmap` over a linear program — is not checked here: the comparison runs on every program).  Only the `tri` family (inner sources that
+are two-machine pipelines: `flatTriM`) has no theorem, the comparison only. -/
 partial def toAnyM (sx : Sx) : Option Closed.AnyM :=
-  match toProg2 sx with
+  match toProg3 sx with
   | some p => some p.toM
   | none =>
     match sx with
@@ -168,6 +182,9 @@ partial def pipeLoop (h : IO.FS.Stream) (n bad : Nat) : IO (Nat × Nat) := do
       -- the network of operator machines (linear programs only) against `sem`, hence against the crate
       if mget "mach" != "?" then
         IO.println "MACH"
+        match sxParse (sxTokens desc) with
+        | some (sx, _) => if ((toProg3 sx).map okB).getD false then IO.println "MTHM"
+        | none => pure ()
         if mget "mach" != mget "out" || mget "mnexts" != mget "nexts" || mget "mok" != "true" then
           probs := s!"MODEL:machines≠sem(mach={mget "mach"},mnexts={mget "mnexts"},mok={mget "mok"})" :: probs
       if probs.isEmpty then pipeLoop h (n + 1) bad
